@@ -402,6 +402,92 @@ def make_flags(repo, unparsed):
     return 'causal' in kinds, 'ures' in kinds, True
 
 
+def tline_end_defs(cls, unparsed):
+    """`tline_end`: 1/(a cosh(sT) + b sinh(sT)) -> `g = ...`, `d = ...`, `h = <pref> * Sum(<coef> * func(t - <mult> * T), (m, <start>, oo))`
+       -> Lean definitions of g, d, the prefactor, the m-th coefficient, the delay multiple and the start index"""
+    out = {'g': '(0 : K)', 'd': '(0 : K)', 'pref': '(0 : K)', 'coef': '(0 : K)', 'mult': '0', 'start': '0'}
+    ok = False
+    fdef = None
+    for f in cls.body:
+        if isinstance(f, ast.FunctionDef) and f.name == 'tline_end':
+            fdef = f
+
+    def ar(e, names):
+        if isinstance(e, ast.BinOp):
+            if isinstance(e.op, ast.Pow):
+                if isinstance(e.right, ast.Name) and e.right.id == 'm':
+                    return '(pw %s m)' % ar(e.left, names)
+                if isinstance(e.right, ast.Constant) and isinstance(e.right.value, int) and e.right.value >= 0:
+                    return '(pw %s %d)' % (ar(e.left, names), e.right.value)
+                raise Untranslatable(ast.unparse(e))
+            op = {ast.Add: '+', ast.Sub: '-', ast.Mult: '*', ast.Div: '/'}.get(type(e.op))
+            if op is None:
+                raise Untranslatable(ast.unparse(e))
+            return '(%s %s %s)' % (ar(e.left, names), op, ar(e.right, names))
+        if isinstance(e, ast.UnaryOp) and isinstance(e.op, ast.USub):
+            return '(-%s)' % ar(e.operand, names)
+        if isinstance(e, ast.Constant) and isinstance(e.value, int) and e.value >= 0:
+            return '(ofN %d)' % e.value
+        if isinstance(e, ast.Name) and e.id in names:
+            return names[e.id]
+        raise Untranslatable(ast.unparse(e))
+
+    def nat(e):
+        """delay multiple as a natural-number expression in m"""
+        if isinstance(e, ast.BinOp) and isinstance(e.op, (ast.Add, ast.Mult)):
+            return '(%s %s %s)' % (nat(e.left), '+' if isinstance(e.op, ast.Add) else '*', nat(e.right))
+        if isinstance(e, ast.Constant) and isinstance(e.value, int) and e.value >= 0:
+            return str(e.value)
+        if isinstance(e, ast.Name) and e.id == 'm':
+            return 'm'
+        raise Untranslatable(ast.unparse(e))
+    try:
+        if fdef is None:
+            raise Untranslatable('tline_end not found')
+        for node in ast.walk(fdef):
+            if isinstance(node, ast.Assign) and len(node.targets) == 1 and isinstance(node.targets[0], ast.Name):
+                nm = node.targets[0].id
+                if nm in ('g', 'd'):
+                    out[nm] = ar(node.value, {'a': 'a', 'b': 'b'})
+                if nm == 'h' and 'sym.Sum' in ast.unparse(node.value):
+                    v = node.value          # <pref> * sym.Sum(<coef> * func(t - <mult> * T), (m, <start>, sym.oo))
+                    if not (isinstance(v, ast.BinOp) and isinstance(v.op, ast.Mult) and isinstance(v.right, ast.Call)
+                            and ast.unparse(v.right.func) == 'sym.Sum'):
+                        raise Untranslatable(ast.unparse(v))
+                    out['pref'] = ar(v.left, {'d': 'd', 'g': 'g'})
+                    summand, lim = v.right.args
+                    if not (isinstance(summand, ast.BinOp) and isinstance(summand.op, ast.Mult) and isinstance(summand.right, ast.Call)
+                            and ast.unparse(summand.right.func) == 'func'):
+                        raise Untranslatable(ast.unparse(summand))
+                    out['coef'] = ar(summand.left, {'g': 'g', 'd': 'd'})
+                    arg = summand.right.args[0]          # t - <mult> * T
+                    if not (isinstance(arg, ast.BinOp) and isinstance(arg.op, ast.Sub) and ast.unparse(arg.left) == 't'
+                            and isinstance(arg.right, ast.BinOp) and isinstance(arg.right.op, ast.Mult) and ast.unparse(arg.right.right) == 'T'):
+                        raise Untranslatable(ast.unparse(arg))
+                    out['mult'] = nat(arg.right.left)
+                    if not (isinstance(lim, ast.Tuple) and len(lim.elts) == 3 and ast.unparse(lim.elts[0]) == 'm' and ast.unparse(lim.elts[2]) == 'sym.oo'):
+                        raise Untranslatable(ast.unparse(lim))
+                    out['start'] = nat(lim.elts[1])
+                    ok = True
+        if not ok:
+            raise Untranslatable('series of tline_end not recognised')
+    except Untranslatable as e:
+        unparsed.append('tline_end: %s' % e)
+        ok = False
+    lines = ['section', 'variable {K : Type} [Add K] [Mul K] [Neg K] [Sub K] [Div K] [OfNat K 0] [OfNat K 1]',
+             '/-- `tline_end`: echo ratio and scale of 1/(a cosh(sT) + b sinh(sT)), as written in the source -/',
+             'def tlineEndG (a b : K) : K := %s' % out['g'],
+             'def tlineEndD (a b : K) : K := %s' % out['d'],
+             'def tlineEndPref (g d : K) : K := %s' % out['pref'],
+             'def tlineEndCoef (g d : K) (m : Nat) : K := %s' % out['coef'],
+             'end',
+             '/-- the m-th term is delayed by this multiple of T; the sum starts at `tlineEndStart` -/',
+             'def tlineEndDelay (m : Nat) : Nat := %s' % out['mult'],
+             'def tlineEndStart : Nat := %s' % out['start'],
+             'def tlineEndTranslated : Bool := %s' % ('true' if ok else 'false')]
+    return lines, {'translated': ok, **out}
+
+
 def generate(repo):
     path = os.path.join(repo, 'lcapy', 'inverse_laplace.py')
     src = open(path).read()
@@ -410,6 +496,7 @@ def generate(repo):
     found = False
     cls = None
     ds_lines, ds_info = [], {'translated': False}
+    tl_lines, tl_info = [], {'translated': False}
     q_dense, q_bylen, q_ok = False, False, False
     try:
         with warnings.catch_warnings():
@@ -439,6 +526,7 @@ def generate(repo):
             q_dense, q_bylen, q_ok = q_loop_flags(fdef, unparsed)
         if cls is not None:
             ds_lines, ds_info = damped_sin_defs(cls, unparsed)
+            tl_lines, tl_info = tline_end_defs(cls, unparsed)
     except SyntaxError as e:
         unparsed.append(str(e))
     key_opts, read_opts, found_key, key_defs, read_defs = option_tables(repo, unparsed)
@@ -480,12 +568,13 @@ def generate(repo):
         'def makeGuardOnlyIfNotCausal : Bool := %s' % ('true' if mk_causal else 'false'),
         '/-- ... and only under `if uresult != 0` -/',
         'def makeGuardOnlyIfUnilateral : Bool := %s' % ('true' if mk_ures else 'false'),
-        'def makeTranslated : Bool := %s' % ('true' if mk_ok else 'false')] + ds_lines + [
+        'def makeTranslated : Bool := %s' % ('true' if mk_ok else 'false')] + ds_lines + tl_lines + [
         'end Lcapy.Laplace.Gen', ''])
     return text, {'defs': (['conjPartnerMustBeSimple'] if found else []) + (['keyOptions', 'readOptions'] if found_key else []),
                   'unparsed': unparsed, 'flag': flag, 'keyOptions': key_opts, 'readOptions': read_opts,
                   'dampedSin': ds_info, 'qLoop': {'dense': q_dense, 'orderByLen': q_bylen, 'translated': q_ok},
                   'residueDivisor': {'lean': res_div, 'translated': res_ok},
+                  'tlineEnd': tl_info,
                   'make': {'guardOnlyIfNotCausal': mk_causal, 'guardOnlyIfUnilateral': mk_ures, 'translated': mk_ok}}
 
 
